@@ -26,13 +26,24 @@ def classes():
         r = Range(0, 10, 1)
         l = List(Int)
         m = List(Int)
-    return S
+
+    class SD(S):
+        """the same attributes with their defaults given by methods (dynamic defaults)"""
+        def _x_default(self):
+            return 1
+
+        def _l_default(self):
+            return []
+
+        def _m_default(self):
+            return []
+    return S, SD
 
 
 class World(object):
-    def __init__(self):
-        S = classes()
-        self.objs = {"A": S(), "B": S(), "C": S()}
+    def __init__(self, shapes=(0, 0, 0)):
+        cl = classes()
+        self.objs = {"A": cl[shapes[0]](), "B": cl[shapes[1]](), "C": cl[shapes[2]]()}
         self.links = []          # directed [src cell, dst cell]
         self.dead = []
         self.calls = {}
@@ -51,6 +62,21 @@ class World(object):
     def reset_calls(self):
         self.calls = {c: 0 for c in SCALARS + LISTS}
 
+    def real_links(self):
+        """the directed links as the objects themselves hold them (__sync_trait__), read without side effects"""
+        names = {id(o): n for n, o in self.objs.items()}
+        out = []
+        for n, o in self.objs.items():
+            info = o.__dict__.get("__sync_trait__") or {}
+            for tname, dic in info.items():
+                if tname == "":
+                    continue
+                for ref, alias in dic.values():
+                    tgt = ref()
+                    if tgt is not None and id(tgt) in names:
+                        out.append(["%s.%s" % (n, tname), "%s.%s" % (names[id(tgt)], alias)])
+        return sorted(out)
+
     def vals(self):
         out = {}
         for c in SCALARS + LISTS:
@@ -64,20 +90,32 @@ class World(object):
 
 
 def run_history(rnd, steps, t):
-    w = World()
+    w = World(tuple(rnd.randint(0, 1) for _ in range(3)))
     out = []
     # candidate links: (src, dst); hub topologies (no cycles through three objects)
     cand_s = [("A.x", "B.x"), ("A.x", "C.y"), ("A.x", "B.r"), ("B.x", "C.y")]
     cand_l = [("A.l", "B.l"), ("A.l", "C.m")]
     for s in range(steps):
         pre = w.vals()
+        rl_pre = w.real_links()
         w.reset_calls()
         u = rnd.random()
         rec = {"tid": t, "step": s, "op": "", "c": "A.x", "d": "A.x", "v": 0, "m": {"op": "", "a": [0, 0, 0], "xs": []},
-               "exc": "", "expect_exc": 0}
+               "exc": "", "expect_exc": 0, "s": "A.x", "t": "A.x", "mutual": 0}
         live = lambda c: c.split(".")[0] not in w.dead
         try:
-            if u < 0.22:
+            if u < 0.05:
+                # a one-way link made mutual by a second, mutual call over the existing link: only the reverse half is new,
+                # and it pushes the (possibly independent) value of the former target back to the source
+                ups = [e for e in w.links if [e[1], e[0]] not in w.links and "B.r" not in e and live(e[0]) and live(e[1])]
+                if not ups:
+                    raise _Skip()
+                src, dst = rnd.choice(ups)
+                (so, sa), (do, da) = src.split("."), dst.split(".")
+                w.links.append([dst, src])
+                rec.update(op="link", c=dst, d=src, s=src, t=dst, mutual=1)
+                w.objs[so].sync_trait(sa, w.objs[do], da, True)
+            elif u < 0.22:
                 cands = [e for e in cand_s + cand_l if live(e[0]) and live(e[1])
                          and [e[0], e[1]] not in w.links and [e[1], e[0]] not in w.links]
                 if e_ok(cands):
@@ -92,18 +130,18 @@ def run_history(rnd, steps, t):
                     w.links.append([src, dst])
                     if mutual:
                         w.links.append([dst, src])
-                    rec.update(op="link", c=src, d=dst)
+                    rec.update(op="link", c=src, d=dst, s=src, t=dst, mutual=int(mutual))
                     w.objs[so].sync_trait(sa, w.objs[do], da, mutual)
                 else:
                     raise _Skip()
             elif u < 0.3 and w.links:
                 src, dst = rnd.choice(w.links)
-                mutual = [dst, src] in w.links
+                mutual = [dst, src] in w.links and rnd.random() < 0.6      # (else only this half of a mutual link goes)
                 (so, sa), (do, da) = src.split("."), dst.split(".")
                 w.links.remove([src, dst])
                 if mutual:
                     w.links.remove([dst, src])
-                rec.update(op="unlink", c=src, d=dst)
+                rec.update(op="unlink", c=src, d=dst, s=src, t=dst, mutual=int(mutual))
                 w.objs[so].sync_trait(sa, w.objs[do], da, mutual, remove=True)
             elif u < 0.33 and "C" not in w.dead and s > 3:
                 rec.update(op="collect", c="C.y")
@@ -172,7 +210,7 @@ def run_history(rnd, steps, t):
             continue
         except Exception as e:
             rec["exc"] = type(e).__name__
-        rec.update(pre=pre, post=w.vals(), calls=dict(w.calls), links=[list(e) for e in w.links], dead=[c for c in SCALARS + LISTS if c.split(".")[0] in w.dead])
+        rec.update(pre=pre, post=w.vals(), calls=dict(w.calls), rl_pre=rl_pre, rl_post=w.real_links(), dead=[c for c in SCALARS + LISTS if c.split(".")[0] in w.dead])
         out.append(rec)
     return out
 
